@@ -11,8 +11,11 @@
        (must_flush_before_shutdown = True: read_from_descriptors still runs), for every list of chunks;
      * [chain_shutdown_is_handler]: shutdown() closes the same sockets in both models, the threaded final flush
        first in both;
-   and one genuine DISAGREEMENT, [chain_oserror_drain_differ] (+ [handler_reads_teared_skips_reads],
-   [firstrequest_hook_oserror_tears_reads]): see the comment there and notes/Links.md part 2. *)
+     * [chain_oserror_is_handler] (formerly the disagreement chain_oserror_drain_differ, repaired in
+       Net/PluginChain.v run_steps): an OSError raised by a hook inside handle_data tears the READS
+       (reads_teared, not must_flush_before_shutdown): nothing is read or relayed afterwards, in the chain model
+       (the history ends with Teardown whatever steps follow), in FirstRequest.v
+       ([firstrequest_hook_oserror_tears_reads]) and in Handler.v ([handler_reads_teared_skips_reads]). *)
 From PM Require Import Lib.Bytes Lib.BytesFacts Lib.PyStr Http.Url Http.Chunk Http.Parser.
 From PM Require Net.Conn Net.ConnFacts Net.Handler Net.Auth Net.PluginChain Net.PluginChainFacts Net.Responses Net.FirstRequest.
 From PM Require Links.EventLoopsIntercept.
@@ -219,7 +222,7 @@ Proof.
     rewrite D, <- !app_assoc. reflexivity.
 Qed.
 
-(* ================================================================== DISAGREEMENT: a hook raising OSError *)
+(* ================================================================== a hook raising OSError: reads are torn (formerly a disagreement) *)
 (* A plugin whose handle_client_request raises OSError the second time it is called. *)
 Definition boom : P.plugin :=
   P.mkPlugin 1 (bs "Boom") (fun _ r => A.Pass r) (fun _ _ _ => Some (None, None))
@@ -246,22 +249,39 @@ Lemma firstrequest_hook_oserror_tears_reads :
   Q.reads_teared h = true /\ Q.must_flush h = false /\ Q.torn h = false /\ Q.buffer h = [bs "resp"].
 Proof. vm_compute. repeat split; reflexivity. Qed.
 
-(* The chain model (C08/C09): the OSError of the hook is logged as Teardown and the connection DRAINS like after a
-   rejection: the next chunk from the upstream still goes through the handle_upstream_chunk chain and is queued
-   for the client.
-   FirstRequest.v and /repo: the OSError leaves handle_data, is caught by HttpProtocolHandler.handle_readables
-   (`except socket.error: return True`), so reads_teared — not must_flush_before_shutdown — is set
-   ([firstrequest_hook_oserror_tears_reads]); and with reads_teared handle_events no longer calls
-   plugin.read_from_descriptors ([handler_reads_teared_skips_reads]): the chunk is neither read nor relayed and
-   no handle_upstream_chunk hook runs.  Replayed on /repo (harness/sim.py, a plugin raising OSError(5) on its
-   second handle_client_request, client output pending): reads_teared=True, must_flush=False, the client
-   buffer does not grow when the upstream sends more.  The chain model is wrong here. *)
-Lemma chain_oserror_drain_differ :
-  let l := fst (P.run_steps ex_cf [boom] None false ex_steps []) in
-  exists pre post, l = pre ++ [P.Teardown] ++ post /\
-    post = [P.Call 1 P.HUC (P.ABytes (bs "more")); P.QueueClient (bs "more")] /\
-    P.client_queue pre = [P.QueueClient (bs "resp")].
+(* AGREEMENT (was the disagreement [chain_oserror_drain_differ] until Net/PluginChain.v run_steps got its
+   reads-teared branch).  /repo: the OSError of a hook leaves handle_data, is caught by
+   HttpProtocolHandler.handle_readables (`except socket.error: return True`), so reads_teared — not
+   must_flush_before_shutdown — is set, and with reads_teared handle_events no longer calls
+   plugin.read_from_descriptors: the next upstream chunk is neither read nor relayed and no handle_upstream_chunk
+   hook runs (replayed through harness/sim.py; corpus/C09/oserror-drain.json).  The three models now say the same:
+   (1) chain model, every configuration / plugin list / history: the step whose hook raised OSError puts Teardown
+       in the log and NO later step (client bytes, upstream chunks) adds anything;
+   (2) Handler.v: with reads_teared a handle_events call neither queues for the client nor touches its buffer;
+   (3) on the concrete history (request served, response chunk "resp" pending, second request's hook raises
+       OSError, upstream sends "more"): the chain log ends with Teardown, the client queue is exactly "resp",
+       "more" reaches no hook; FirstRequest.v ends with reads_teared, must_flush unset, buffer = "resp". *)
+Theorem chain_oserror_is_handler :
+  (forall cf ps n,
+     (forall r c rest l l1 st1,
+        P.on_request_complete cf ps r c l = (l1, P.Failed st1 (P.FRaise (OSError n))) ->
+        P.run_steps cf ps None false (P.SFirst r c :: rest) l = (l1 ++ [P.Teardown], Some st1)) /\
+     (forall st0 raw parses rest l l1 st1,
+        P.on_client_data cf ps st0 raw parses l = (l1, P.Failed st1 (P.FRaise (OSError n))) ->
+        P.run_steps cf ps (Some st0) false (P.SClient raw parses :: rest) l = (l1 ++ [P.Teardown], Some st1))) /\
+  (forall c e s, H.reads_teared s = true -> H.c_w e = false ->
+     H.work (fst (H.handle_events c e s)) = H.work s /\
+     H.g_cl_queued (fst (H.handle_events c e s)) = H.g_cl_queued s) /\
+  (let l := fst (P.run_steps ex_cf [boom] None false ex_steps []) in
+   let h := Q.run ex_qc ex_orc ex_ocd ex_qevs in
+   (exists pre, l = pre ++ [P.Teardown] /\ P.client_queue pre = [P.QueueClient (bs "resp")] /\
+      existsb (fun e => match e with P.Call _ P.HUC (P.ABytes b) => bytes_eqb b (bs "more") | _ => false end) l = false) /\
+   Q.reads_teared h = true /\ Q.must_flush h = false /\ Q.buffer h = [bs "resp"]).
 Proof.
-  cbv zeta. set (l := fst (P.run_steps ex_cf [boom] None false ex_steps [])).
-  exists (firstn 8 l), (skipn 9 l). vm_compute. repeat split; reflexivity.
+  split; [exact PM.Net.PluginChainFacts.hook_oserror_tears_reads|].
+  split; [exact handler_reads_teared_skips_reads|].
+  cbv zeta. split.
+  - set (l := fst (P.run_steps ex_cf [boom] None false ex_steps [])).
+    exists (removelast l). vm_compute. repeat split; reflexivity.
+  - vm_compute. repeat split; reflexivity.
 Qed.
